@@ -1,6 +1,11 @@
 #!/bin/bash
-# snap.sh [dir]  - frozen copy of the committed /verif (HEAD) with its own build, for selftest runs
-D=${1:-/tmp/vsnap}
+# snap.sh [vdir] [rdir] - frozen copy of the committed /verif (HEAD) whose harness builds against a
+# scratch worktree of /repo, so that seeded changes can be applied and checked without touching
+# /repo or the work in progress in /verif. Use: CHECK_ROOT=<vdir> REPO_ROOT=<rdir> run_seeded.py <id>
+D=${1:-/tmp/vsnap}; R=${2:-/tmp/rsnap}
 mkdir -p $D
 git -C /verif archive HEAD | tar -x -C $D
+git -C /repo worktree remove --force $R 2>/dev/null
+git -C /repo worktree add -q --detach $R HEAD || exit 9
+sed -i "s#\"/repo/#\"$R/#g" $D/harness/*/Cargo.toml
 cd $D/harness && CARGO_NET_OFFLINE=true cargo +1.79.0 build --release --offline 2>&1 | tail -1
